@@ -232,13 +232,79 @@ def is_small_leaf(g):
     return True
 
 
+COMBINATORS = {
+    # Option<T> combinators whose meaning is a two-way match on the receiver:
+    # name -> value answered for None (the Some side calls the closure)
+    "std::option::Option::<T>::is_some_and": False,
+    "std::option::Option::<T>::is_none_or": True,
+}
+
+
+def _option_payload(ty):
+    if ty.startswith("std::option::Option<") and ty.endswith(">"):
+        return ty[len("std::option::Option<"):-1]
+    return None
+
+
+def _expand_combinator(prog, root, blocks, locals_, origin, bb, none_value):
+    """Rewrite `dst = opt.is_some_and(closure)` in block bb into
+    `match opt { None => false, Some(x) => closure(x) }` (blocks appended)."""
+    b = blocks[bb]
+    t = b["t"]
+    if len(t["args"]) != 2 or t["args"][0][0] not in ("cp", "mv") or t["args"][0][1][1]:
+        return False
+    if t["args"][1][0] not in ("cp", "mv") or t.get("t") is None:
+        return False
+    opt_local = t["args"][0][1][0]
+    opt_ty = locals_[opt_local]
+    T = _option_payload(opt_ty)
+    if T is None:
+        return False
+    # the closure handed in must be a closure value built in this function
+    clo_local = t["args"][1][1][0]
+    clo_ty = locals_[clo_local]
+    clo_def = None
+    for blk in blocks:
+        for st in blk["s"]:
+            if st[0] == "=" and st[1] == [clo_local, []] and st[2][0] == "agg" and st[2][1].get("k") == "closure":
+                clo_def = st[2][1].get("def")
+    if clo_def is None or clo_def not in prog.fns:
+        return False
+    span = t.get("span")
+    d, x, tup = len(locals_), len(locals_) + 1, len(locals_) + 2
+    locals_.extend(["isize", T, "(%s,)" % T])
+    prog.enums.setdefault(opt_ty, [[0, "None"], [1, "Some"]])
+    n0 = len(blocks)
+    b_none, b_some, b_unr = n0, n0 + 1, n0 + 2
+    b["s"].append(["=", [d, []], ["discr", [opt_local, []], opt_ty], span])
+    b["t"] = {"k": "switch", "on": ["mv", [d, []]], "ty": "isize",
+              "targets": [[0, b_none], [1, b_some]], "else": b_unr, "span": span}
+    blocks.append({"s": [["=", t["dst"], ["use", ["k", {"ty": "bool", "v": none_value}]], span]],
+                   "t": {"k": "goto", "t": t["t"]}, "cleanup": False})
+    fld = ["f", 0, T, "0", "std::option::Option", "Some"]
+    blocks.append({"s": [["=", [x, []], ["use", ["mv", [opt_local, [["d", "Some", 1], fld]]]], span],
+                         ["=", [tup, []], ["agg", {"k": "tuple"}, [["mv", [x, []]]]], span]],
+                   "t": {"k": "call",
+                         "callee": {"def": "std::ops::FnOnce::call_once", "full": "std::ops::FnOnce::call_once",
+                                    "trait": "std::ops::FnOnce", "res": clo_def, "res_full": clo_def,
+                                    "res_kind": "item", "res_local": True, "resolved": True},
+                         "args": [["mv", [clo_local, []]], ["mv", [tup, []]]],
+                         "argtys": [clo_ty, "(%s,)" % T], "dst": t["dst"], "dstty": t.get("dstty"),
+                         "t": t["t"], "cleanup": None, "span": span},
+                   "cleanup": False})
+    blocks.append({"s": [], "t": {"k": "unreachable"}, "cleanup": False})
+    origin.extend([origin[bb]] * 3)
+    return True
+
+
 def view(prog, root, pick=None, depth=MAX_DEPTH, accessors=False, classifiers=False, closures=False,
-         leaves=False):
+         leaves=False, combinators=False):
     """Synthetic Fn: `root` with its private helpers inlined.  `pick(call)`
     may veto individual call sites; with `accessors`, small kind-test
     accessors (`is_accessor`) are inlined as well, wherever they are called.
     Returns `root` itself when nothing was inlined."""
-    key = (root.path, depth, getattr(pick, "__name__", None), accessors, classifiers, closures, leaves)
+    key = (root.path, depth, getattr(pick, "__name__", None), accessors, classifiers, closures, leaves,
+           combinators)
     memo = getattr(prog, "_views", None)
     if memo is None:
         memo = prog._views = {}
@@ -258,7 +324,7 @@ def view(prog, root, pick=None, depth=MAX_DEPTH, accessors=False, classifiers=Fa
     if closures:
         helpers |= {g.path for g in prog.fns.values() if g.full and g.is_closure
                     and (g.root_fn().path == root.path or g.root_fn().path in helpers)}
-    if not helpers or not root.full:
+    if (not helpers and not combinators) or not root.full:
         memo[key] = root
         return root
     j = dict(root.j)
@@ -278,6 +344,11 @@ def view(prog, root, pick=None, depth=MAX_DEPTH, accessors=False, classifiers=Fa
         if b["cleanup"] or t["k"] != "call" or "ptr" in t["callee"]:
             continue
         callee = t["callee"].get("res") or t["callee"].get("def")
+        if combinators and callee in COMBINATORS and len(blocks) + 3 <= MAX_BLOCKS:
+            if _expand_combinator(prog, root, blocks, locals_, origin, bb, COMBINATORS[callee]):
+                inlined.append(callee)
+                work.extend(range(len(blocks) - 3, len(blocks)))
+                continue
         g = prog.fns.get(callee)
         if g is None or callee not in helpers or not g.full:
             continue
